@@ -22,7 +22,7 @@ MANIFEST = {
             "diagonal) and the row-merge counts are tied exactly to qrnzcnt's colcnt_h and to the returned L of every run "
             "(extracted rm_colcounts); the qrnzcnt algorithm itself (Gilbert-Ng-Peyton skeleton counting) is not modelled line by "
             "line. C memory safety in general is a runtime property (ASan samples it). Trusted: Coq kernel, extraction, hooks, "
-            "AddressSanitizer.",
+            "AddressSanitizer. Legal singular inputs with a relaxed supernode of fewer rows than columns (deficient-leaf) are run with hooks and under ASan; a negative allocator request is a violation.",
     "technique": "Coq proof (allocator arithmetic proved equal to a translation of the C source regenerated on every run, slot checker) + exact PresetMap correspondence + per-allocation slot monitor + ASan",
 }
 
